@@ -36,7 +36,8 @@ type LockAnalysis struct {
 	accesses func(f *ssa.Function) []lockAccess
 	funcs    []*ssa.Function
 
-	state map[*ssa.Function]map[ssa.Instruction]lockMode // lock mode held locally before each instruction
+	acquires map[*ssa.Function]lockMode // lock helpers: the mode the function leaves held on every return
+	state    map[*ssa.Function]map[ssa.Instruction]lockMode // lock mode held locally before each instruction
 	acc   map[*ssa.Function][]lockAccess
 	need  map[*ssa.Function]lockMode
 	why   map[*ssa.Function]string // witness for need: "callee chain → access"
@@ -89,6 +90,22 @@ func (la *LockAnalysis) computeStates(f *ssa.Function) {
 	if len(f.Blocks) == 0 {
 		return
 	}
+	// deferred releases run at RunDefers
+	deferredRelease := false
+	an.AllInstrs(f, func(x ssa.Instruction) {
+		d, ok := x.(*ssa.Defer)
+		if !ok {
+			return
+		}
+		if op, _, isLock := la.lockCall(x); isLock && (op == "Unlock" || op == "RUnlock") {
+			deferredRelease = true
+		}
+		if hc, isCall := d.Call.Value.(*ssa.Call); isCall {
+			if g := an.StaticCallee(&hc.Call); g != nil && la.acquires[g] > lockNone {
+				deferredRelease = true
+			}
+		}
+	})
 	in := map[*ssa.BasicBlock]lockMode{}
 	seen := map[*ssa.BasicBlock]bool{}
 	work := []*ssa.BasicBlock{f.Blocks[0]}
@@ -100,6 +117,9 @@ func (la *LockAnalysis) computeStates(f *ssa.Function) {
 		cur := in[b]
 		for _, ins := range b.Instrs {
 			st[ins] = cur
+			if _, isRD := ins.(*ssa.RunDefers); isRD && deferredRelease {
+				cur = lockNone
+			}
 			if op, deferred, ok := la.lockCall(ins); ok && !deferred {
 				switch op {
 				case "Lock":
@@ -110,6 +130,12 @@ func (la *LockAnalysis) computeStates(f *ssa.Function) {
 					}
 				case "Unlock", "RUnlock":
 					cur = lockNone
+				}
+			}
+			// a lock helper (takes the lock and returns, typically handing back the unlock function)
+			if call, isCall := ins.(*ssa.Call); isCall {
+				if g := an.StaticCallee(&call.Call); g != nil && la.acquires[g] > cur {
+					cur = la.acquires[g]
 				}
 			}
 		}
@@ -157,8 +183,38 @@ func NewLockAnalysis(c *Ctx, name string, isLock func(string) bool, accesses fun
 	la := &LockAnalysis{c: c, name: name, isLock: isLock, accesses: accesses, funcs: c.libFuncs(),
 		state: map[*ssa.Function]map[ssa.Instruction]lockMode{}, acc: map[*ssa.Function][]lockAccess{},
 		need: map[*ssa.Function]lockMode{}, why: map[*ssa.Function]string{}}
+	la.acquires = map[*ssa.Function]lockMode{}
+	for iter := 0; iter < 4; iter++ {
+		for _, f := range la.funcs {
+			la.computeStates(f)
+		}
+		changed := false
+		for _, f := range la.funcs {
+			if len(f.Blocks) == 0 {
+				continue
+			}
+			m := lockW
+			n := 0
+			for _, r := range an.Returns(f) {
+				n++
+				if s := la.state[f][r]; s < m {
+					m = s
+				}
+			}
+			if n == 0 {
+				m = lockNone
+			}
+			// only functions that themselves contain an acquisition (or call a helper) and no release count
+			if m > lockNone && la.acquires[f] != m {
+				la.acquires[f] = m
+				changed = true
+			}
+		}
+		if !changed {
+			break
+		}
+	}
 	for _, f := range la.funcs {
-		la.computeStates(f)
 		la.acc[f] = accesses(f)
 	}
 	// need() fixpoint
@@ -270,9 +326,47 @@ func (la *LockAnalysis) CheckPairing(rule string, entries []*ssa.Function) {
 	}
 	for _, f := range la.funcs {
 		an.AllInstrs(f, func(in ssa.Instruction) {
+			// call of a lock helper: its result (the unlock function) must be deferred or called on every path
+			if call, isCall := in.(*ssa.Call); isCall {
+				if g := an.StaticCallee(&call.Call); g != nil && la.acquires[g] > lockNone {
+					released := func(t ssa.Instruction) bool {
+						tc := an.CallOf(t)
+						return tc != nil && tc.Value == ssa.Value(call)
+					}
+					path := (&an.Query{
+						Target: func(t ssa.Instruction) bool {
+							switch t.(type) {
+							case *ssa.Return, *ssa.Panic:
+								return true
+							}
+							return false
+						},
+						Block: released,
+					}).Search(an.After(in))
+					// an acquire helper calling another one hands the obligation on
+					if la.acquires[f] > lockNone {
+						path = nil
+					}
+					o := c.R.Add(rule, c.fk(f), fmt.Sprintf("lock-helper:%s/result-deferred-or-called", an.FuncKey(g)), c.pos(in), path == nil, ifelse(path == nil, "the unlock function the helper returns is deferred or called on every path", "the lock helper's unlock function is dropped on some path: the lock stays held"))
+					if path != nil {
+						o.Path = c.P.PathString(path)
+					}
+					if reached[f] {
+						held := la.state[f][in]
+						if heldIn[f] > held {
+							held = heldIn[f]
+						}
+						c.R.Add(rule, c.fk(f), fmt.Sprintf("lock-helper:%s/not-reentrant", an.FuncKey(g)), c.pos(in), held == lockNone, ifelse(held == lockNone, "never acquired while already held", "acquired while "+held.String()+" may already be held on a calling path"))
+					}
+					return
+				}
+			}
 			op, deferred, ok := la.lockCall(in)
 			if !ok || deferred || (op != "Lock" && op != "RLock") {
 				return
+			}
+			if la.acquires[f] > lockNone {
+				return // a lock helper: the release is its callers' obligation (checked at the call sites)
 			}
 			rel := "Unlock"
 			if op == "RLock" {
